@@ -225,6 +225,10 @@ pub trait Coll<P: PT>: Clone + Default {
     fn tree(&self, ctx: &Ctx) -> Value;
     fn snap(&self) -> VerifSnapshot;
     fn as_map(&mut self) -> Option<&mut PrefixMap<P, i32>>;
+    /// view_at(p) / view_mut_at(p): complete description of the sub-view graph
+    fn view_desc(&mut self, ctx: &Ctx, p: &P) -> Value;
+    /// view_at(p0) then find / find_exact / find_lpm (q), read-only and mutable
+    fn find_from(&mut self, ctx: &Ctx, p0: &P, q: &P, kind: &str) -> Value;
 }
 
 const LIM: usize = 100_000;
@@ -301,6 +305,43 @@ impl<P: PT> Coll<P> for PrefixMap<P, i32> {
     }
     fn as_map(&mut self) -> Option<&mut PrefixMap<P, i32>> {
         Some(self)
+    }
+    fn view_desc(&mut self, ctx: &Ctx, p: &P) -> Value {
+        let val = |v: &i32| *v;
+        let ro = crate::views::view_desc(ctx, (&*self).view_at(p.clone()), &val);
+        let rw = match self.view_mut_at(p.clone()) {
+            Some(v) => json!([crate::views::desc_mut(ctx, v, &val, 0)]),
+            None => json!([]),
+        };
+        // left()/right() of the mutable view agree with split()
+        if let Some(v) = self.view_mut_at(p.clone()) {
+            let s = crate::views::sides_mut(ctx, v, &val);
+            let exp_left = rw[0]["l"].get(0).map(|d| json!({"p": d["p"], "v": d["v"], "it": d["it"]}));
+            let got_left = if s["left"].is_null() { None } else { Some(s["left"].clone()) };
+            if exp_left != got_left {
+                return json!(["LEFT-DIFFERS", exp_left, got_left]);
+            }
+        }
+        crate::views::both_desc(ro, rw)
+    }
+    fn find_from(&mut self, ctx: &Ctx, p0: &P, q: &P, kind: &str) -> Value {
+        let val = |v: &i32| *v;
+        let ro = crate::views::find_ro(ctx, (&*self).view_at(p0.clone()), q.clone(), kind, &val);
+        let rw = crate::views::find_mut(ctx, self.view_mut_at(p0.clone()), q.clone(), kind, &val);
+        // view_at on a view equals find
+        if kind == "find" {
+            let va = match (&*self).view_at(p0.clone()) {
+                Some(v) => match v.clone().view_at(q.clone()) {
+                    Some(x) => json!([{"ok": 1, "d": crate::views::short(ctx, &x, &val)}]),
+                    None => json!([{"ok": 0, "d": crate::views::short(ctx, &v, &val)}]),
+                },
+                None => json!([]),
+            };
+            if va != ro {
+                return json!(["VIEW_AT-DIFFERS", ro, va]);
+            }
+        }
+        crate::views::both_desc(ro, rw)
     }
 }
 
@@ -380,6 +421,43 @@ impl<P: PT> Coll<P> for PrefixSet<P> {
     }
     fn as_map(&mut self) -> Option<&mut PrefixMap<P, i32>> {
         None
+    }
+    fn view_desc(&mut self, ctx: &Ctx, p: &P) -> Value {
+        let val = |_: &()| 1;
+        let ro = crate::views::view_desc(ctx, (&*self).view_at(p.clone()), &val);
+        let rw = match self.view_mut_at(p.clone()) {
+            Some(v) => json!([crate::views::desc_mut(ctx, v, &val, 0)]),
+            None => json!([]),
+        };
+        // left()/right() of the mutable view agree with split()
+        if let Some(v) = self.view_mut_at(p.clone()) {
+            let s = crate::views::sides_mut(ctx, v, &val);
+            let exp_left = rw[0]["l"].get(0).map(|d| json!({"p": d["p"], "v": d["v"], "it": d["it"]}));
+            let got_left = if s["left"].is_null() { None } else { Some(s["left"].clone()) };
+            if exp_left != got_left {
+                return json!(["LEFT-DIFFERS", exp_left, got_left]);
+            }
+        }
+        crate::views::both_desc(ro, rw)
+    }
+    fn find_from(&mut self, ctx: &Ctx, p0: &P, q: &P, kind: &str) -> Value {
+        let val = |_: &()| 1;
+        let ro = crate::views::find_ro(ctx, (&*self).view_at(p0.clone()), q.clone(), kind, &val);
+        let rw = crate::views::find_mut(ctx, self.view_mut_at(p0.clone()), q.clone(), kind, &val);
+        // view_at on a view equals find
+        if kind == "find" {
+            let va = match (&*self).view_at(p0.clone()) {
+                Some(v) => match v.clone().view_at(q.clone()) {
+                    Some(x) => json!([{"ok": 1, "d": crate::views::short(ctx, &x, &val)}]),
+                    None => json!([{"ok": 0, "d": crate::views::short(ctx, &v, &val)}]),
+                },
+                None => json!([]),
+            };
+            if va != ro {
+                return json!(["VIEW_AT-DIFFERS", ro, va]);
+            }
+        }
+        crate::views::both_desc(ro, rw)
     }
 }
 
@@ -591,6 +669,71 @@ pub fn apply<P: PT, C: Coll<P>>(c: &mut C, ev: &Value, ctx: &Ctx) -> Option<Outc
                 }),
                 _ => guarded(|| write_through(ctx, map.children_mut(&p()), k)),
             }
+        }
+        "ViewDesc" => guarded(|| c.view_desc(ctx, &p())),
+        "Find" => {
+            let q = ctx.dec::<P>(&ev["q"]);
+            let kind = ev["kind"].as_str().unwrap();
+            guarded(|| c.find_from(ctx, &p(), &q, kind))
+        }
+        "ViewSet" | "ViewRemove" | "ViewValueMut" | "ViewIterMut" => {
+            let Some(map) = c.as_map() else { return None };
+            let k = ev["k"].as_u64().unwrap_or(0) as usize;
+            let how = ev["how"].as_str().unwrap_or("");
+            guarded(|| {
+                let Some(mut v) = map.view_mut_at(p()) else { return json!([]) };
+                match a {
+                    "ViewSet" => {
+                        let x = ev["v"].as_i64().unwrap() as i32;
+                        match v.set(x) {
+                            Ok(old) => json!([{"ok": 1, "old": opt(old)}]),
+                            Err(back) => json!([{"ok": 0, "old": [back]}]),
+                        }
+                    }
+                    "ViewRemove" => json!([{"old": opt(v.remove())}]),
+                    "ViewValueMut" => {
+                        if how == "prefix_value_mut" {
+                            match v.prefix_value_mut() {
+                                Some((q, x)) => {
+                                    let old = *x;
+                                    *x = flip(old);
+                                    json!([{"old": [{"p": ctx.enc(q), "v": old}]}])
+                                }
+                                None => json!([{"old": []}]),
+                            }
+                        } else {
+                            let pfx = ctx.enc(v.prefix());
+                            match v.value_mut() {
+                                Some(x) => {
+                                    let old = *x;
+                                    *x = flip(old);
+                                    json!([{"old": [{"p": pfx, "v": old}]}])
+                                }
+                                None => json!([{"old": []}]),
+                            }
+                        }
+                    }
+                    _ => match how {
+                        "values_mut" => {
+                            let keys: Vec<Value> = (&v).view().keys().take(LIM).map(|q| ctx.enc(q)).collect();
+                            let mut refs: Vec<&mut i32> = v.values_mut().take(LIM).collect();
+                            let out: Vec<Value> = refs
+                                .iter()
+                                .enumerate()
+                                .map(|(j, x)| json!({"p": keys.get(j).cloned().unwrap_or(json!("EXTRA")), "v": **x}))
+                                .collect();
+                            for (j, x) in refs.iter_mut().enumerate() {
+                                if k == 0 || k == j + 1 {
+                                    **x = flip(**x);
+                                }
+                            }
+                            json!([out])
+                        }
+                        "into_iter" => json!([write_through(ctx, v.into_iter(), k)]),
+                        _ => json!([write_through(ctx, v.iter_mut(), k)]),
+                    },
+                }
+            })
         }
         "Get" => guarded(|| opt(c.get(&p()))),
         "GetKV" => guarded(|| {
